@@ -2,7 +2,7 @@
 spec/PeaksOps.tla + Peaks.tla (all small images x masks x borders x footprints, MC of the declarative reading, GEN replay into
 find_peaks), Trace_Peaks.tla (random larger images incl. NaN / negative regions / 2-D thresholds / npeaks; star-finder result rows:
 inclusive bounds, ids, finiteness, brightest, xycoords, separation, None rule)."""
-import json, random, warnings
+import json, math, random, warnings
 import numpy as np
 from .. import core
 
@@ -200,8 +200,23 @@ def rec_star(seed):
         y, x = np.mgrid[:7, :7]
         kern = np.exp(-0.5 * (((x - 3) / 1.3) ** 2 + ((y - 3) / 1.3) ** 2))
         return StarFinder(thr, kern, min_separation=minsep, exclude_border=excl, brightest=br, peakmax=peakmax)
+    pm_expected = pm_got = -1
     with warnings.catch_warnings():
         warnings.simplefilter('ignore')
+        if peakmax is not None:
+            # completeness of the peakmax cut: the sources of the run without a peakmax whose REPORTED peak is <= peakmax are exactly the
+            # sources of the run with it (both without `brightest`).  Every other scene puts peakmax just above the median reported peak
+            # (reported peaks are sky-subtracted for IRAFStarFinder, so raw and reported peaks then lie on different sides of it)
+            keep = peakmax
+            peakmax = None
+            ta = mk(None)(data, mask=mask)
+            peakmax = keep
+            pka = sorted(float(v) for v in (ta['peak'] if 'peak' in ta.colnames else ta['max_value'])) if ta is not None else []
+            if pka and seed % 2 == 0:
+                peakmax = math.floor(pka[len(pka) // 2] * 8) / 8 + 0.0625
+            tb = mk(None)(data, mask=mask)
+            pm_expected = sum(1 for v in pka if v <= peakmax)
+            pm_got = len(tb) if tb is not None else 0
         f = mk(brightest)
         t = f(data, mask=mask)
         tall = mk(None)(data, mask=mask) if brightest else t
@@ -235,7 +250,7 @@ def rec_star(seed):
            'sharplo': fk(sharplo) - 1 if bounds_apply else -10**6, 'sharphi': fk(sharphi) + 1 if bounds_apply else 10**6,
            'roundlo': (fk(max(roundlo, 0.0) if (iraf and roundlo > -1) else (0.0 if iraf else roundlo)) - 1) if bounds_apply else -10**6,
            'roundhi': (fk(max(roundhi, 0.2) if iraf else roundhi) + 1) if bounds_apply else 10**6,
-           'peakmax': fk(peakmax) + 1 if peakmax is not None else -1, 'brightest': brightest or 0, 'fluxes_sorted': fl, 'all_fluxes_sorted': allfl,
+           'peakmax': fk(peakmax) + 1 if peakmax is not None else -1, 'pm_expected': pm_expected, 'pm_got': pm_got, 'brightest': brightest or 0, 'fluxes_sorted': fl, 'all_fluxes_sorted': allfl,
            'khx': khx, 'khy': khy, 'minsep2': int((minsep * S / 8) ** 2) if (minsep and not use_xy) else 0, 'septol': int(2 * (minsep * S / 8) * (1.5 * S / 8)) if minsep else 0}
     # the detected peaks of the convolved image are not public; use the centroids of the unrestricted, unfiltered run as anchors instead:
     # with xycoords the anchors are the supplied coordinates (the statement: exactly those positions)
